@@ -21,6 +21,8 @@ var verifSelectors = []string{
 	"a == 'y' || b == 'x'",
 	"all()",
 	"a starts with 'x'",
+	"a in {'x', 'y'} && (a == 'y' || a == 'x')", // value restrictions intersected with an out-of-order union
+	"(a == 'y' || a == 'x') && (b == 'y' || b == 'x' || has(a))",
 }
 
 type verifRefIndex struct {
